@@ -2,6 +2,7 @@
   C06 — printing and parsing are inverse; syntax trees are internally consistent.
 -/
 import HctlProofs.Props.C05
+import HctlProofs.Lemmas.LexRender
 namespace Hctl.C06
 open Hctl
 
@@ -52,15 +53,6 @@ theorem build_str (t : Tree) : t.build.str = t.render ∧ t.build.height = t.hei
   exact h
 
 /-! the parsing half of the round trip: the canonical token list of a tree parses back to the tree -/
-
-/-- the tokens of the canonical fully parenthesised rendering -/
-def canonToks : Tree → List Tok
-  | .atom .tt => [.atom (.prop "True".toList)]
-  | .atom .ff => [.atom (.prop "False".toList)]
-  | .atom a => [.atom a]
-  | .un o c => [.group (.un o :: canonToks c)]
-  | .bin o l r => [.group (canonToks l ++ .bin o :: canonToks r)]
-  | .hyb o v d c => [.group (.hyb o v d :: canonToks c)]
 
 /-- identifiers for which printing is unambiguous: a proposition must not be spelled like a constant -/
 def PropNamesOK : Tree → Prop
@@ -121,8 +113,8 @@ theorem canonToks_derives : ∀ t, PropNamesOK t → D .term (canonToks t) t := 
       exact this
     | var n => exact D.var
     | wild n => exact D.wild
-    | tt => exact D.prop (n := "True".toList)
-    | ff => exact D.prop (n := "False".toList)
+    | tt => exact D.prop (n := ['T','r','u','e'])
+    | ff => exact D.prop (n := ['F','a','l','s','e'])
   | un o c ih =>
     intro h
     exact D.group (D_to_hyb .un (D.un (D_lift (ih h) .un)))
@@ -139,6 +131,34 @@ theorem parse_canonToks (t : Tree) (h : PropNamesOK t) : parseToks (canonToks t)
   rw [C05.parse_iff_derives]
   exact D_lift (canonToks_derives t h) .hyb
 
+/-- MAIN (round trip, lexing and parsing, every tree of any size): printing a tree over valid identifiers with the
+canonical renderer and running tokenizer and parser on the text yields the tree again. `TreeOK`: identifiers are
+non-empty words of name characters, propositions are not spelled like an operator (`EX`, `3`, …), `@` carries no
+domain; `PropNamesOK`: a proposition is not spelled like a constant. -/
+theorem print_parse_roundtrip (K : CharClass) (hK : Lex.CharsOK K) (t : Tree) (ht : Lex.TreeOK K t)
+    (hp : PropNamesOK t) :
+    ∃ toks, Lex.tokenize K true t.render = .ok toks ∧ parseToks toks = .ok t :=
+  ⟨canonToks t, Lex.tokenize_render hK true t ht (Or.inl rfl), parse_canonToks t hp⟩
+
+/-- the same through the plain entry point, for trees without wild-cards and domains -/
+theorem print_parse_roundtrip_plain (K : CharClass) (hK : Lex.CharsOK K) (t : Tree) (ht : Lex.TreeOK K t)
+    (hp : PropNamesOK t) (hpl : Plain t) :
+    ∃ toks, Lex.tokenize K false t.render = .ok toks ∧ parseToks toks = .ok t :=
+  ⟨canonToks t, Lex.tokenize_render hK false t ht (Or.inr hpl), parse_canonToks t hp⟩
+
+/-- hence the canonical rendering determines the tree (stored texts identify structures) -/
+theorem render_injective (K : CharClass) (hK : Lex.CharsOK K) (t1 t2 : Tree) (h1 : Lex.TreeOK K t1) (h2 : Lex.TreeOK K t2)
+    (p1 : PropNamesOK t1) (p2 : PropNamesOK t2) (h : t1.render = t2.render) : t1 = t2 := by
+  have a := Lex.tokenize_render hK true t1 h1 (Or.inl rfl)
+  have b := Lex.tokenize_render hK true t2 h2 (Or.inl rfl)
+  rw [h, b] at a
+  have hc : canonToks t2 = canonToks t1 := by injection a
+  have c1 := parse_canonToks t1 p1
+  have c2 := parse_canonToks t2 p2
+  rw [hc, c1] at c2
+  cases c2
+  rfl
+
 /-! Non-vacuity, and a name that really breaks the round trip (so the guard is the real one). -/
 example : PropNamesOK (.bin .and (.atom (.prop ['a'])) (.atom .tt)) := by
   simp [PropNamesOK, constOrProp]
@@ -147,5 +167,36 @@ example : ¬ PropNamesOK (.atom (.prop "true".toList)) := by
 example : (Tree.un .not (.atom (.prop ['a']))).build.str = "(~a)".toList := by decide
 example : (Tree.hyb .ex ['x'] (some ['d']) (.un .ag (.atom (.var ['x'])))).build.str
     = "(3{x} in %d%: (AG {x}))".toList := by decide
+
+/-! Non-vacuity of the round trip: a character class that satisfies `CharsOK`, and a tree that satisfies the premises. -/
+section
+open Lex
+/-- the ASCII restriction of Rust's character classes -/
+def asciiClass : CharClass := ⟨fun c => c.isAlphanum, fun c => c.isWhitespace⟩
+
+theorem asciiClass_ok : CharsOK asciiClass := by
+  constructor
+  · intro c h
+    simp only [asciiClass, Char.isWhitespace, Bool.or_eq_true, decide_eq_true_eq] at h
+    rcases h with ((rfl | rfl) | rfl) | rfl <;> decide
+  · intro c hc
+    simp only [specials, List.mem_cons, List.not_mem_nil, or_false] at hc
+    rcases hc with rfl | rfl | rfl | rfl | rfl | rfl | rfl | rfl | rfl | rfl | rfl | rfl | rfl | rfl | rfl | rfl | rfl <;> decide
+  · intro c hc hne
+    simp only [specials, List.mem_cons, List.not_mem_nil, or_false] at hc
+    rcases hc with rfl | rfl | rfl | rfl | rfl | rfl | rfl | rfl | rfl | rfl | rfl | rfl | rfl | rfl | rfl | rfl | rfl <;>
+      first | decide | exact absurd rfl hne
+  · decide
+  · intro c hc
+    simp only [List.mem_cons, List.not_mem_nil, or_false] at hc
+    rcases hc with rfl | rfl | rfl | rfl | rfl | rfl | rfl | rfl | rfl | rfl | rfl | rfl | rfl | rfl | rfl | rfl | rfl | rfl <;> decide
+
+-- `(!{x} in %d%: (AX ({x} & (~EF_a))))` round-trips
+example : TreeOK asciiClass (.hyb .bind ['x'] (some ['d']) (.un .ax (.bin .and (.atom (.var ['x'])) (.un .not (.atom (.prop ['E','F','_','a']))))))
+    ∧ PropNamesOK (.hyb .bind ['x'] (some ['d']) (.un .ax (.bin .and (.atom (.var ['x'])) (.un .not (.atom (.prop ['E','F','_','a'])))))) := by
+  refine ⟨?_, ?_⟩
+  · simp [TreeOK, ValidId, ValidName, isName, asciiClass]
+  · simp [PropNamesOK, constOrProp]
+end
 
 end Hctl.C06
